@@ -63,6 +63,11 @@ def doc_vtt(rng):
 def doc_mdvd(rng):
     n = rng.randint(1, 4)
     out = []
+    r = rng.random()
+    if r < 0.3:
+        out.append("{0}{0}23.976")          # a frame-rate header (a reused reader must not remember it)
+    elif r < 0.4:
+        out.append("{0}{0}30")
     for (s, e) in spans(rng, n):
         lines = [words(rng, pool=PLAIN) for _ in range(rng.randint(1, 2))]
         out.append("{%d}{%d}%s" % (s // 1000 * 25, e // 1000 * 25 + 25, "|".join(lines)))
@@ -99,12 +104,17 @@ def doc_dfxp(rng):
             if regions and rng.random() < 0.6:
                 attrs += ' region="r%d"' % rng.randint(1, len(regions))
             if styles and rng.random() < 0.5:
-                attrs += ' style="s%d"' % rng.randint(1, len(styles))
+                if len(styles) > 1 and rng.random() < 0.5:
+                    attrs += ' style="%s"' % rng.choice(["s1 s2", "s2 s1"])     # multi-valued style reference
+                else:
+                    attrs += ' style="s%d"' % rng.randint(1, len(styles))
             parts = []
             for _ in range(rng.randint(1, 3)):
                 w = xml_esc(words(rng))
                 r = rng.random()
-                if r < 0.25:
+                if r < 0.08 and len(styles) > 1:
+                    parts.append('<span style="s1 s2">%s</span>' % w)
+                elif r < 0.25:
                     parts.append('<span tts:fontStyle="italic">%s</span>' % w)
                 elif r < 0.35:
                     parts.append('<span tts:fontWeight="bold" tts:color="blue">%s</span>' % w)
@@ -120,7 +130,8 @@ def doc_dfxp(rng):
 SAMI_CLASS = {"en-US": "ENCC", "fr": "FRCC", "de": "DECC", "es": "ESCC"}
 
 
-def doc_sami(rng):
+def sami_style(rng):
+    """(languages, css lines, {lang: [class names]}): the <STYLE> part of a SAMI document, reusable for another body"""
     nl = rng.randint(1, 3)
     langs = rng.sample(LANGS, nl)
     css = []
@@ -131,8 +142,22 @@ def doc_sami(rng):
         css.append("P { margin-left: 1pt; margin-top: 2pt; }")
     elif r < 0.6:
         css.append("P { font-family: Arial; color: white; }")
+    classes = {}
     for lang in langs:
-        css.append(".%s {Name: %s; lang: %s;}" % (SAMI_CLASS[lang], lang, lang))
+        if rng.random() < 0.25:
+            # two classes declare the same language, with different alignment / margins
+            css.append(".%s {Name: %s; lang: %s; text-align: left; margin-left: 2%%;}" % (SAMI_CLASS[lang], lang, lang))
+            css.append(".%sB {Name: %s; lang: %s; text-align: right; margin-left: 8%%; margin-top: 3%%;}"
+                       % (SAMI_CLASS[lang], lang, lang))
+            classes[lang] = [SAMI_CLASS[lang], SAMI_CLASS[lang] + "B"]
+        else:
+            css.append(".%s {Name: %s; lang: %s;}" % (SAMI_CLASS[lang], lang, lang))
+            classes[lang] = [SAMI_CLASS[lang]]
+    return langs, css, classes
+
+
+def doc_sami(rng, style=None):
+    langs, css, classes = style or sami_style(rng)
     syncs = []
     for (s, e) in spans(rng, rng.randint(1, 3)):
         ps = []
@@ -148,10 +173,10 @@ def doc_sami(rng):
                         parts.append('<span style="color:red;">%s</span>' % w)
                     else:
                         parts.append(w)
-                ps.append('<P class="%s">%s</P>' % (SAMI_CLASS[lang], "<br/>".join(parts)))
+                ps.append('<P class="%s">%s</P>' % (rng.choice(classes[lang]), "<br/>".join(parts)))
         syncs.append('<SYNC start="%d">%s</SYNC>' % (s, "".join(ps)))
         syncs.append('<SYNC start="%d">%s</SYNC>'
-                     % (e, "".join('<P class="%s">&nbsp;</P>' % SAMI_CLASS[lg] for lg in langs)))
+                     % (e, "".join('<P class="%s">&nbsp;</P>' % classes[lg][0] for lg in langs)))
     return ('<SAMI><HEAD><TITLE>t</TITLE><STYLE TYPE="text/css"><!--\n%s\n--></STYLE></HEAD><BODY>\n%s\n</BODY></SAMI>'
             % ("\n".join(css), "\n".join(syncs)))
 
@@ -218,6 +243,19 @@ def read_opts(rng, fmt):
     return {}
 
 
+def reader_opts(rng, fmt):
+    """constructor options of the reader object (kept for the whole life of the object)"""
+    if fmt == "vtt":
+        r = rng.random()
+        if r < 0.3:
+            return {"ignore_timing_errors": False}
+        if r < 0.4:
+            return {"time_shift_milliseconds": 500}
+    if fmt == "dfxp" and rng.random() < 0.2:
+        return {"read_invalid_positioning": True}
+    return {}
+
+
 # ---- API-built sets -------------------------------------------------------------------------------------------------
 STYLE_CONTENTS = [{"italics": True}, {"bold": True}, {"underline": True}, {"italics": True, "color": "red"},
                   {"font-size": "12px"}, {}, {"color": "blue"}]
@@ -244,8 +282,14 @@ def gen_nodes(rng, lay):
     return nodes
 
 
-def gen_spec(rng):
+def gen_spec(rng, mode=None):
+    """mode "rich": every level carries positioning and there are styles (incl. one named p);
+       mode "plain": no positioning, no styles at all; None: anything"""
     flavour = rng.random()
+    if mode == "plain":
+        flavour = 0.2
+    elif mode == "rich":
+        flavour = 0.5 + flavour / 2
     if flavour < 0.15:
         pool = ["abs"]                      # uniformly absolute units: writers without video size must refuse
     elif flavour < 0.35:
@@ -255,7 +299,7 @@ def gen_spec(rng):
 
     def lay():
         return rng.choice(pool)
-    nl = rng.choice([0, 1, 1, 1, 2, 2, 3])
+    nl = rng.choice([0, 1, 1, 1, 2, 2, 3]) if mode is None else rng.choice([1, 1, 2])
     langs = []
     for lang in rng.sample(LANGS, nl):
         caps = []
@@ -269,10 +313,22 @@ def gen_spec(rng):
             st = rng.random()
             style = None if st < 0.5 else dict(rng.choice([{}, {"color": "red"}, {"text-align": "center"},
                                                            {"class": "s1"}, {"italics": True}]))
-            caps.append({"start": s_, "end": e_, "style": style, "layout": lay() if rng.random() < 0.6 else
+            caps.append({"start": s_, "end": e_, "style": style,
+                         "layout": lay() if rng.random() < (0.9 if mode == "rich" else 0.6) else
                          (pool[0] if pool == ["abs"] else None), "nodes": gen_nodes(rng, lay)})
-        langs.append({"lang": lang, "layout": lay() if rng.random() < 0.4 else None, "caps": caps})
+        lang_lay = lay() if rng.random() < 0.4 else None
+        if mode == "rich":
+            lang_lay = rng.choice(["rel_fit", "rel_noext", "rel_over", "align", "pad"])
+            if not caps:
+                caps.append({"start": 1000000, "end": 2000000, "style": None, "layout": None,
+                             "nodes": [["t", words(rng), None]]})
+        langs.append({"lang": lang, "layout": lang_lay, "caps": caps})
     styles = None
+    if mode == "rich":
+        styles = [["p", {"color": "white", "text-align": "center"}], ["s1", {"italics": True}]]
+        return {"layout": rng.choice(["rel_fit", "rel_noext", "pad", None]), "styles": styles, "langs": langs}
+    if mode == "plain":
+        return {"layout": None, "styles": rng.choice([None, [["big", {"color": "red"}]]]), "langs": langs}
     if rng.random() < 0.5:
         styles = []
         for sel in rng.sample(["s1", "p", "span", "big"], rng.randint(0, 3)):
@@ -339,7 +395,8 @@ def gen_source(rng, rid, p_build=0.5, fmts=FORMATS):
     if rng.random() < p_build:
         return {"op": "build", "spec": gen_spec(rng)}
     fmt = rng.choice(fmts)
-    return {"op": "read", "fmt": fmt, "doc": DOCS[fmt](rng), "opts": read_opts(rng, fmt), "r": rid}
+    return {"op": "read", "fmt": fmt, "doc": DOCS[fmt](rng), "opts": read_opts(rng, fmt), "ropts": reader_opts(rng, fmt),
+            "r": rid}
 
 
 def spec_langs(op):
@@ -352,6 +409,32 @@ def history_c09(rng):
     """1-3 caption sets, 3-8 writes on shared and fresh writer objects; the same (writer class, options, set) is
     written again by the same object, by a fresh object and after other sets were written; now and then an edit."""
     ops = []
+    shape = rng.random()
+    if shape < 0.25:
+        # stale writer state: one object writes a set with positioning / styles at every level, then a set with
+        # none at all; a fresh object writes the latter
+        ops = [{"op": "build", "spec": gen_spec(rng, "rich")} if rng.random() < 0.7 else
+               gen_source(rng, rid=0, p_build=0.0, fmts=["sami", "dfxp", "vtt"]),
+               {"op": "build", "spec": gen_spec(rng, "plain")} if rng.random() < 0.7 else
+               gen_source(rng, rid=1, p_build=0.0, fmts=["srt", "mdvd"])]
+        kind, wopts = gen_writer(rng)
+        kw = {}
+        return ops + [{"op": "write", "kind": kind, "wopts": wopts, "kw": kw, "w": 0, "set": 0},
+                      {"op": "write", "kind": kind, "wopts": wopts, "kw": kw, "w": 0, "set": 1},
+                      {"op": "write", "kind": kind, "wopts": wopts, "kw": kw, "w": 1, "set": 1},
+                      {"op": "write", "kind": kind, "wopts": wopts, "kw": kw, "w": 0, "set": 0},
+                      {"op": "write", "kind": kind, "wopts": wopts, "kw": kw, "w": 2, "set": 0}]
+    if shape < 0.45:
+        # memory across writes that is NOT in the writer object: one object writes A, a fresh object writes B
+        # (compared with B written alone in a fresh process: the pristine twin)
+        def src(k):
+            if rng.random() < 0.75:
+                return {"op": "build", "spec": gen_spec(rng, rng.choice([None, "rich", "rich"]))}
+            return gen_source(rng, rid=k, p_build=0.0)
+        kind, wopts = gen_writer(rng)
+        return [src(0), src(1),
+                {"op": "write", "kind": kind, "wopts": wopts, "kw": {}, "w": 0, "set": 0},
+                {"op": "write", "kind": kind, "wopts": wopts, "kw": {}, "w": 1, "set": 1}]
     nsets = rng.choice([1, 2, 2, 3])
     for k in range(nsets):
         ops.append(gen_source(rng, rid=k, p_build=0.6))
@@ -364,10 +447,12 @@ def history_c09(rng):
 
     def wr(w, s, knd=kind, wo=wopts, kws=None):
         return {"op": "write", "kind": knd, "wopts": wo, "kw": kw if kws is None else kws, "w": w, "set": s}
-    ops.append(wr(main, focus_set))
-    for _ in range(rng.randint(0, 3)):
+    late = rng.random() < 0.4       # the focus set is written for the first time only AFTER other writes happened in
+    if not late:                    # this process (its pristine twin history is what it is compared with)
+        ops.append(wr(main, focus_set))
+    for _ in range(rng.randint(1 if late else 0, 3)):
         r = rng.random()
-        if r < 0.5:
+        if r < (0.7 if late else 0.5):
             # the same writer object writes another set (possibly one that makes it raise / leaves a span open)
             s2 = rng.randrange(nsets)
             ops.append(wr(main, s2, kws=gen_kw(rng, kind, spec_langs(ops[s2]))))
@@ -389,13 +474,15 @@ def history_c09(rng):
 
 def history_c10(rng):
     """3-9 operations: reads of the six formats on fresh and REUSED reader objects (same document again, another
-    document), API-built sets, writes by any writer in between, edits of a set (add_style, rules in place, caption
-    times / style / layout, node append / content, caption removal), and re-reads of a document after edits."""
+    document; reader constructor options), API-built sets, writes by any writer in between, edits of a set (add_style,
+    rules in place, caption times / style / layout, node append / content, caption removal), and re-reads of a
+    document after edits.  SAMI documents sometimes share their <STYLE> block with an earlier one."""
     ops = []
     nsets = 0
-    readers = {}          # fmt -> reader ids
+    readers = {}          # (fmt, ropts) -> reader ids
     rid = 0
     docs = []             # (fmt, doc, opts) read so far
+    sami_styles = []
     wid = 0
     n = rng.randint(3, 9)
     while len(ops) < n:
@@ -410,15 +497,26 @@ def history_c10(rng):
                 continue
             else:
                 fmt = rng.choice(FORMATS)
-                doc, opts = DOCS[fmt](rng), read_opts(rng, fmt)
+                if fmt == "sami":
+                    if sami_styles and rng.random() < 0.5:
+                        st = rng.choice(sami_styles)           # another document with the very same <STYLE> text
+                    else:
+                        st = sami_style(rng)
+                        sami_styles.append(st)
+                    doc = doc_sami(rng, st)
+                else:
+                    doc = DOCS[fmt](rng)
+                opts = read_opts(rng, fmt)
                 docs.append((fmt, doc, opts))
-            if readers.get(fmt) and rng.random() < 0.6:
-                use = rng.choice(readers[fmt])               # reader reuse
+            ropts = reader_opts(rng, fmt)
+            key = (fmt, repr(sorted(ropts.items())))
+            if readers.get(key) and rng.random() < 0.6:
+                use = rng.choice(readers[key])               # reader reuse
             else:
                 use = rid
                 rid += 1
-                readers.setdefault(fmt, []).append(use)
-            ops.append({"op": "read", "fmt": fmt, "doc": doc, "opts": opts, "r": use})
+                readers.setdefault(key, []).append(use)
+            ops.append({"op": "read", "fmt": fmt, "doc": doc, "opts": opts, "ropts": ropts, "r": use})
             nsets += 1
         elif r < 0.75:
             ops.append({"op": "edit", "set": rng.randrange(nsets), "edit": gen_edit(rng)})
@@ -428,3 +526,17 @@ def history_c10(rng):
             ops.append({"op": "write", "kind": kind, "wopts": wopts, "kw": {}, "w": wid, "set": s})
             wid += 1
     return ops
+
+
+def pristine_twin(history):
+    """the creation ops of a history followed by its LAST write, done by a fresh writer object: what that write
+    returns in a process where nothing else has been written"""
+    writes = [op for op in history if op["op"] == "write"]
+    if not writes:
+        return None
+    edited = set(op["set"] for op in history if op["op"] == "edit")
+    last = writes[-1]
+    if last["set"] in edited:
+        return None
+    twin = [op for op in history if op["op"] in ("build", "read")]
+    return twin + [dict(last, w=0)]
